@@ -224,6 +224,8 @@ pub fn compare(h: &mut Harness, before: &Snapshot, after: &Snapshot, tree_before
         let class = key.split('/').next().unwrap_or("");
         let sub = key.split('/').nth(1).unwrap_or("");
         let (prop, oracle): (&'static str, &'static str) = match class {
+            "msg" | "cur" if h.opts.props.contains("C19") => ("C19", "same_key_restores_everything"),
+            "cat" if h.opts.props.contains("C19") => ("C19", "same_key_restores_everything"),
             "msg" | "cur" => ("C03", "restart_preserves_messages"),
             "cat" => ("C05", "restart_reproduces_catalogue"),
             "fig" => ("C16", "restart_reports_same_figures"),
